@@ -240,6 +240,10 @@ func (e *wrapEnv) structure(t []rune, runs []wRun, wt *wrapTier, multi bool) {
 			}
 		}
 	}
+	for _, cont := range []bool{false, true} {
+		cont := cont
+		axes = append(axes, axisVal{"trunc", func(c *wCase) { c.Trunc, c.Truncator, c.Continues = 1, 3, cont }})
+	}
 	axes = append(axes, axisVal{"notrim", func(c *wCase) { c.NoTrim = true }})
 	axes = append(axes, axisVal{"iter", func(c *wCase) { c.Iter = 1 }})
 	for seq := 1; seq <= 3; seq++ {
@@ -318,6 +322,16 @@ func wrapRun(prop string, laws lawSet) func(tier, shard string, r *mc.Reporter) 
 		if wt.extra != nil && !r.Expired() {
 			run(wt.extra, wt.maxLen+1)
 		}
+		// every character with a mandatory line break class (BK, CR, LF, NL), so that code reading
+		// runes literally instead of through the segmenter is not hidden by the class quotient
+		if !r.Expired() {
+			mb := &wrapTier{alphabet: []rune{'a', ' ', '\n', '\r', 0x0085, 0x000B, 0x000C, 0x2028, 0x2029}, maxLen: 3, maxRuns: 2, multiGlyph: false, secondary: false, maxWidths: 0,
+				name: "mandatory-break alphabet {a,SP,LF,CR,NEL,VT,FF,LS,PS} len 1..3, <=2 runs, primary axes"}
+			if tier == "thorough" {
+				mb.maxLen, mb.multiGlyph, mb.secondary = 4, true, true
+			}
+			run(mb, 1)
+		}
 	}
 }
 
@@ -360,7 +374,8 @@ func wrapReplay(laws lawSet) func(c json.RawMessage, r *mc.Reporter) {
 
 func wrapBounds() map[string]string {
 	q, t := wrapTierFor("quick"), wrapTierFor("thorough")
-	return map[string]string{"quick": q.name + "; " + q.extra.name, "thorough": t.name + "; " + t.extra.name}
+	mbn := "; mandatory-break alphabet {a,SP,LF,CR,NEL,VT,FF,LS,PS} len<=3 (thorough 4)"
+	return map[string]string{"quick": q.name + "; " + q.extra.name + mbn, "thorough": t.name + "; " + t.extra.name + mbn}
 }
 
 const wrapRule = "every text over {a,SP,LF,-,U+0301,alef,1,NBSP,ZWSP} up to the tier's length x every split into <=3 runs x every LTR/RTL direction vector x every cluster composition (parts<=3) " +
